@@ -46,8 +46,23 @@ func craftID(model string) string {
 	return string(b)
 }
 
+// tokens the specification uses for text the driver concretises
+var bigBody = strings.Repeat("lorem ipsum dolor sit amet ", 6*1024*1024/27)
+
+const uniTitle = "Nïcé 任务 タスク ñ"
+
+func expandToken(v string) string {
+	switch v {
+	case "BIG":
+		return bigBody
+	case "UNI":
+		return uniTitle
+	}
+	return v
+}
+
 func craftLine(ev map[string]any) ([]byte, error) {
-	s := func(k string) string { v, _ := ev[k].(string); return v }
+	s := func(k string) string { v, _ := ev[k].(string); return expandToken(v) }
 	typ := s("type")
 	ts := craftTime(ev["ts"])
 	var data map[string]any
